@@ -1,4 +1,5 @@
 import MoPepGen.Lemmas.Fusion
+import MoPepGen.Lemmas.FusionCall
 /-!
 # C15 — fusion parsers yield the fusion transcript defined by the breakpoints
 
@@ -10,6 +11,14 @@ chromosome only.  All theorems hold for arbitrary annotations (any number of gen
 exons), both strands on either side (hence all four strand combinations), exonic and intronic
 breakpoints.  Hypotheses are the decidable predicates `GeneOK` (built from `Transcript.WF`,
 `Transcript.Within`, "transcript line = hull of its exons", gene on the chromosome).
+
+The last clause of the property ("callVariant's fusion peptides are digestion products of that
+sequence") is stated on the definitional layer at the end of the file (`callvariant_clause`,
+`callvariant_clause_fused`): without small records `Spec.callBackbone` is exactly the peptide
+forms of the backbone itself minus the donor's own products and the canonical pool.  That the
+real `callVariant`, run on the GVF the real parser wrote, reports exactly that set for the
+backbone `fusedSeq` is compared per generated input by the `callvariant` stream of
+`harness/c15.py` (the graph algorithm is not modelled: validated, not proved).
 -/
 namespace MoPepGen.Props.C15
 open MoPepGen MoPepGen.Fusion MoPepGen.FusionSpec
@@ -620,5 +629,79 @@ theorem fusion_cli_fc (anno : Anno) (genome : Genome) (maxCommon minSpanUnique :
   constructor
   · rintro ⟨row, h1, h2, h3⟩; exact ⟨row, h1, (key row).mp h2, h3⟩
   · rintro ⟨row, h1, h2, h3⟩; exact ⟨row, h1, (key row).mpr h2, h3⟩
+
+/-! ## the callVariant clause
+
+"… and callVariant's fusion peptides are digestion products of that sequence."
+
+The fusion transcript `fusedSeq` is handed to the definitional layer of callVariant
+(`Spec.callBackbone`, the definition C01/C02 compare the real command with) as a backbone `t`
+(`t.seq = fusedSeq …`), with no small records.  `callBackbone` refers to two places inside the
+backbone — the donor breakpoint in transcript coordinates (= length of the donor's exonic prefix)
+and the first base of the acceptor's exonic suffix (`orfLimit`) — so `fusedSeq` is cut into four
+stretches (`fusedParts`); the theorems below say the cut is the intended one. -/
+
+/-- the four stretches concatenate to the fusion transcript -/
+theorem fusedParts_join (chromD : List Char) (tD : Transcript) (lb : Nat) (chromA : List Char)
+    (tA : Transcript) (rb : Nat) :
+    (fusedParts chromD tD lb chromA tA rb).join = fusedSeq chromD tD lb chromA tA rb := by
+  simp only [FusedParts.join, fusedParts, fusedSeq, donorSplit, acceptorSplit, readBases,
+    List.append_assoc]
+  rw [← List.append_assoc, ← List.map_append, List.takeWhile_append_dropWhile, ← List.map_append,
+    List.takeWhile_append_dropWhile]
+
+/-- donor side, any strand, exonic or intronic breakpoint on the chromosome: the first stretch
+consists of exonic positions only, the second of non-exonic (retained intronic) positions only,
+together they are the donor part of the specification -/
+theorem donorSplit_spec (n : Nat) (t : Transcript) (p : Nat) (hp : p < n) :
+    (∀ q ∈ (donorSplit n t p).1, isExonic t q = true) ∧
+    (∀ q ∈ (donorSplit n t p).2, isExonic t q = false) ∧
+    (donorSplit n t p).1 ++ (donorSplit n t p).2 = donorPositions n t p :=
+  ⟨takeWhile_all_true,
+   dropWhile_all_false (donorPositions_pairwise n t p) (donor_intron_inherits hp),
+   List.takeWhile_append_dropWhile⟩
+
+/-- acceptor side: first the retained intronic positions, then exonic positions only -/
+theorem acceptorSplit_spec (n : Nat) (t : Transcript) (p : Nat) (hp : p < n) :
+    (∀ q ∈ (acceptorSplit n t p).1, isExonic t q = false) ∧
+    (∀ q ∈ (acceptorSplit n t p).2, isExonic t q = true) ∧
+    (acceptorSplit n t p).1 ++ (acceptorSplit n t p).2 = acceptorPositions n t p := by
+  refine ⟨fun q hq => ?_, fun q hq => ?_, List.takeWhile_append_dropWhile⟩
+  · simpa using takeWhile_all_true q hq
+  · simpa using dropWhile_all_false (acceptorPositions_pairwise n t p)
+      (acceptor_exon_inherits hp) q hq
+
+/-- non-vacuity (the annotation of the first examples: intronic left breakpoint on `+`, exonic
+right breakpoint on `-`): `CCG` donor exons, `GT` retained donor intron, no acceptor intron -/
+example : (let x := fusedParts exChrom ⟨.plus, [⟨2, 5⟩, ⟨8, 12⟩]⟩ 6 exChrom ⟨.minus, [⟨1, 4⟩, ⟨9, 13⟩]⟩ 10
+    (x.donorExonic, x.donorIntron, x.accIntron, x.accExonic)) =
+    ("CCG".toList, "GT".toList, [], "CGGGT".toList) := by decide
+/-- intronic right breakpoint on `-` (position 6): the retained acceptor intron `ACC` comes first -/
+example : (let x := fusedParts exChrom ⟨.plus, [⟨2, 5⟩, ⟨8, 12⟩]⟩ 3 exChrom ⟨.minus, [⟨1, 4⟩, ⟨9, 13⟩]⟩ 6
+    (x.donorExonic, x.donorIntron, x.accIntron, x.accExonic)) =
+    ("CC".toList, [], "ACC".toList, "GGT".toList) := by decide
+
+/-- **callVariant clause, definitional layer.**  For every configuration, every backbone `t`
+(coding or not, any ORF, any `orfLimit`) and every deny list: with no small records, `p` is in
+the fusion set iff `p` is a peptide form (digestion product within the limits, with the
+requested Met-removed / W→F forms) of a permitted reading frame of the backbone sequence
+`t.seq` itself, is not a product of the unmodified donor (`deny`) and is not canonical. -/
+theorem callvariant_clause (g : Spec.Cfg) (t : Spec.TxIn) (deny : List Pep) (p : Pep) :
+    p ∈ Spec.callBackbone g t [] deny ↔
+      p ∈ Spec.peptidesOf g t t.seq t.sec t.endNF ∧ p ∉ deny ∧ p ∉ g.canonical := by
+  rw [Spec.callBackbone_nil]
+  simp only [List.mem_filter, Bool.and_eq_true, Bool.not_eq_true', List.contains_eq_mem,
+    decide_eq_false_iff_not]
+
+/-- … instantiated with the fusion transcript of two breakpoints: every fusion peptide of the
+definition is a peptide form of `fusedSeq donor lb acceptor rb` -/
+theorem callvariant_clause_fused (g : Spec.Cfg) (t : Spec.TxIn) (deny : List Pep)
+    (chromD : List Char) (tD : Transcript) (lb : Nat) (chromA : List Char) (tA : Transcript)
+    (rb : Nat) (hseq : t.seq = (fusedParts chromD tD lb chromA tA rb).join) (p : Pep)
+    (h : p ∈ Spec.callBackbone g t [] deny) :
+    p ∈ Spec.peptidesOf g t (fusedSeq chromD tD lb chromA tA rb) t.sec t.endNF ∧
+      p ∉ deny ∧ p ∉ g.canonical := by
+  rw [← fusedParts_join, ← hseq]
+  exact (callvariant_clause g t deny p).mp h
 
 end MoPepGen.Props.C15
